@@ -30,6 +30,17 @@ def run(ctx):
             texts.append(PF.mutate(rng, s))
     for _ in range(ctx.scale(1500, 50000)):
         texts.append(PF.random_text(rng))
+    # error spans are byte coordinates: well-formed filters with multi-byte characters (raw UTF-8 or surrogate-escaped bytes in the value),
+    # followed by 1-3 characters of trailing data, or cut short / broken at every position
+    wide = ["(cn=日本)", "(cn=é)", "(&(cn=日本語日本語)(sn=ü))", "(cn=" + chr(0x1F600) + "*)", "(o:dn:=日本)", "(cn=" + chr(0xDCE9) + chr(0xDC80) + ")", "(|(a=ÿ)(b~=ñ))"]
+    for w in wide:
+        for junk in (")", "(", "x", "))", ")(", " x", "=", "(a=b)", "日", ")日"):
+            texts.append(w + junk)
+            texts.append(" " + w + junk + "\u3000")
+        for i in range(len(w)):
+            texts.append(w[:i])
+            texts.append(w[:i] + ")" + w[i:])
+            texts.append(w[:i] + "(" + w[i:])
     violations = []
     hist = collections.Counter()
     distinct = set()
